@@ -88,10 +88,14 @@ def mk_props(mp):
     iz = mp["iz"][0] if mp["iz"] else None
     fe = mp["fecf"][0] if mp["fecf"] else None
     fixed = mp["ftype"] == "fixed"
+    # an ABSENT zone may still carry a size in the record (a channel whose FECF was switched off): present=False decides
+    salt = (mp["fixedlen"] if fixed else mp["trunclen"]) + (iz or 0) + (fe or 0)
+    iz_size = iz if iz is not None else (4 if salt % 3 == 1 else None)
+    fe_size = fe if fe is not None else (2 if salt % 3 == 2 else None)
     if ((iz or 0) + (fe or 0) + (mp["fixedlen"] if fixed else mp["trunclen"])) % 2 and mp["ftype"] in _PROPS:
         pr = _PROPS[mp["ftype"]]
-        pr.insert_zone_properties.present, pr.insert_zone_properties.size = iz is not None, iz
-        pr.fecf_properties.present, pr.fecf_properties.size = fe is not None, fe
+        pr.insert_zone_properties.present, pr.insert_zone_properties.size = iz is not None, iz_size
+        pr.fecf_properties.present, pr.fecf_properties.size = fe is not None, fe_size
         if fixed:
             pr.fixed_len = mp["fixedlen"]
         else:
@@ -99,10 +103,10 @@ def mk_props(mp):
         return pr
     if fixed:
         pr = FixedFrameProperties(fixed_len=mp["fixedlen"], has_insert_zone=iz is not None, has_fecf=fe is not None,
-                                  insert_zone_len=iz, fecf_len=fe)
+                                  insert_zone_len=iz_size, fecf_len=fe_size)
     else:
         pr = VarFrameProperties(has_insert_zone=iz is not None, has_fecf=fe is not None, truncated_frame_len=mp["trunclen"],
-                                insert_zone_len=iz, fecf_len=fe)
+                                insert_zone_len=iz_size, fecf_len=fe_size)
     _PROPS.setdefault(mp["ftype"], pr)
     return pr
 
